@@ -233,6 +233,10 @@ def run(ctx, model_ok, deep=False):
     F.run_suites(ctx, model_ok, deep, [
         ("header-history", S.header_history_suite, S.falsify_accept,
          "a genuine token, then on the same checker (or another one of the thread) a token whose header has the same length and the same first k base64url characters but names another algorithm / none / no algorithm of the library, or is the first header with characters appended, signed correctly over its own text; then the genuine token again; k and the header length on both sides of 16...4096 and of every size new in the source; HS256 and RS256", False),
+        # the codec's callers size their own buffers from the codec's macros: every signature length the library produces or
+        # compares goes through them in the instrumented build (a one-octet overrun in a caller's buffer is a sanitizer report)
+        ("codec-callers", S.providers_suite, S.falsify_providers,
+         "every key x admissible alg (MACs of 32/48/64 octets, RSA 256..512 octets, ECDSA 64..132, EdDSA 64/114) generated under each provider and verified under each provider, in the AddressSanitizer build", True),
     ])
     for suite, s in per.items():
         ctx.add_suite(suite, evaluations=s["evaluations"], distinct_nontrivial=len(s["outs"]),
